@@ -57,7 +57,7 @@ CORPUS = [
     ("R11", "fn main() { let o = new { \"a b\": 1, \"type\": 2, name: 3, k: 4 }; println(o); }"),
     ("R12", "$S = { @setting x: int, plain: bool };\nfn main() { println($S.x); }"),
     ("R13", "$S = { x: int };\nfn f(s: $S, k: int) -> int { s.x + k }\nfn main() { println(f(3)); }"),
-    ("R16", "import { type P, inc } from lib;\nimport { type P } from lib;\nfn main() { let p: P = new { x: inc(1), y: 2 }; println(p); }"),
+    ("R16", "import { inc } from lib;\nimport { type P } from lib;\nfn main() { let p: P = new { x: inc(1), y: 2 }; println(p); }"),
     ("-", "fn main() { let a = 1; let b = 2; println(a + b * a - b / a % b, a ** b ** a, (a + b) * a, a << b >> a, a | b & a ^ b, a < b == true, a < b && b > a || false, -a ** 2, (-a) ** 2); }"),
     ("-", "fn main() { let a = 1; a = 2; a += 1; a -= 1; a *= 2; a /= 2; a %= 3; a **= 2; a <<= 1; a >>= 1; a |= 4; a &= 7; a ^= 1; println(a); }"),
     ("-", "fn main() { let x = if true { 1 } else if false { 2 } else { 3 }; println(x); if x == 1 { println(\"a\") } else if x == 2 { println(\"b\") }; let y = { let z = 2; { z * 2 } }; println(y); }"),
